@@ -21,6 +21,20 @@ Strengthening (work/SC17): a table case also carries
   twice  journal the same two tables a second time into a second destination (no state may leak between calls)
   fields[i].d  dtype of a numeric payload (int8 .. uint64, float32/64, S<w> fixed strings; values at the extremes)
 and every table case checks that journal_table left its two input tables unchanged.
+
+Strengthening (work/VC17): the NAMES of the columns are part of a table case (the Gallina model is name-agnostic: it
+receives the compared columns by position, in schema order; the harness maps names to positions — _layout)
+  pk     name of the primary-key column (default 'id')
+  names  names of the payload columns, in schema order (default f0, f1, ...): substrings / prefixes / suffixes / single
+         characters / superstrings / case variants of the primary-key name and of the reserved names j_valid_from /
+         j_valid_to, names that are substrings of one another
+  ocre / ncre   order in which the columns of the old table / the snapshot were created (iteration order of the
+         DataFrame) — 0 as listed, 1 reversed, 2 payload first, 3 / 4 alphabetical / reverse alphabetical, 5 hashed
+  sord   where the schema lists the primary key / the j_valid_* columns relative to the payload names (or not at all)
+  extra  [[name, where]] further columns: 'o' / 'n' only in the old table / only in the snapshot (listed by the schema),
+         'b' in both tables but not in the schema, 'g' listed by the schema but in neither table — none of them may
+         appear in the result and none may influence it
+and the result group must hold exactly the payload columns, each under its own name with its own history.
 """
 import itertools, json, hashlib
 
@@ -50,13 +64,27 @@ RULE = ('table (HDF5, ~10 ms/case; every case in one of jit / nojit chosen by ha
         'source tables are unchanged afterwards. I. change-directed: every new small integer literal K of the tree under '
         'test is planted as number of rows of the old table / the snapshot / the result, run of versions, segment size, '
         'field chunk size (K-1, K, K+1, 2K-1, 2K, 2K+1, 3K, up to 520 rows), key width, string-cell length and number of '
-        'compared fields. pipe (kernels on sorted arrays, both modes): '
+        'compared fields. J. column NAMES (the model is name-agnostic, the harness maps names to positions): for the '
+        'primary-key names id / patient_id / j_valid / k (thorough or changed tree: + pk, j_valid_from_id, to, ID, a_b, '
+        'j_valid_to_) every single payload column named by EVERY non-empty proper substring of the key name and of '
+        'j_valid_from / j_valid_to, by their superstrings (suffix / prefix added, doubled), case variants, reversal, '
+        'same-length variant, leading / trailing blank, non-ASCII suffix; every pair (thorough: ordered pair) of a '
+        '20-name alphabet of such names with each column in turn carrying the only difference; every triple of an '
+        '8-name alphabet and chains of names that are substrings of one another; extra columns with related names '
+        '(only old / only new / both but not in the schema / schema only) that must not appear in nor influence the '
+        'result; 4-6 seeded names; rotating: the order in which the columns were created in either table (as listed / '
+        'reversed / payload first / alphabetical / reverse / hashed, old and new differing), the place of the key and of '
+        'j_valid_* in the schema (key first / last / in the middle / not listed); the result group must hold exactly the '
+        'payload columns, each under its own name, pairwise different columns. pipe (kernels on sorted arrays, both modes): '
         'every non-decreasing old key list of <= 5 rows over 3 keys x every strictly increasing snapshot over 4 keys '
         'x every per-matched-key difference pattern in {same, num, str, both}. indices: every old list of <= 4 '
         'entries over 3 symbols x every new list of <= 3 entries over 4 symbols (also unsorted: model = code). '
         'Non-trivial = at least one key present in both tables or several versions of a key.')
 EXHAUSTIVE = {'quick': True, 'thorough': True}
-TRUSTED = ['numpy argsort(kind=stable), fancy indexing and Session.dataset_sort_index / apply_index are defined in '
+TRUSTED = ['the model is name-agnostic: it receives the compared columns by position in schema order; which columns are '
+           'compared (listed by the schema and present in both tables, except the key and j_valid_*) is restated in the '
+           'harness (_layout / _schema_names in harness/props/C17.py) and tied to journal.py:39-66 by this run',
+           'numpy argsort(kind=stable), fancy indexing and Session.dataset_sort_index / apply_index are defined in '
            'Gallina (Model/Journal.v: argsort, take, dataset_sort_index, apply_index_str) and tied to the real '
            'functions only by this correspondence run',
            'h5py/ExeTera field storage round-trip (write of the destination arrays, read-back of .data/.indices/.values)',
@@ -66,7 +94,9 @@ TRUSTED = ['numpy argsort(kind=stable), fancy indexing and Session.dataset_sort_
            'the order numpy and numba give to S<w> cells is the bytewise unsigned order of the NUL-padded cells (this is the '
            'order the model uses: Model/JournalKeys.key_enc, proved an order isomorphism; tied to the real code by the '
            'fixed-string-key cases of this run)']
-ASSUMPTIONS = ['snapshot keys are unique', 'old and new column of a field have the same kind and dtype',
+ASSUMPTIONS = ['snapshot keys are unique', 'column names are distinct, non-empty HDF5 link names different from the '
+               'primary-key name and from j_valid_from / j_valid_to (otherwise arbitrary: the result must not depend on them)',
+               'old and new column of a field have the same kind and dtype',
                'schema lists the payload fields; primary key / j_valid_from / j_valid_to are not written to the result '
                '(journal_table skips them)',
                'payload kinds: numeric, fixed-string (compared and copied like numeric data) and indexed-string columns']
@@ -285,11 +315,68 @@ def _num_out(np, d, arr):
     return _ints(arr)
 
 
-def _create_key(s, df, kd, scs):
+def _create_key(s, df, pk, kd, scs):
     w = _swidth(kd)
     if w is not None:
-        return s.create_fixed_string(df, 'id', w, chunksize=scs)
-    return s.create_numeric(df, 'id', kd, chunksize=scs)
+        return s.create_fixed_string(df, pk, w, chunksize=scs)
+    return s.create_numeric(df, pk, kd, chunksize=scs)
+
+
+# ---- column names (harness side: the model is name-agnostic and receives the compared columns by position) -------------
+RESERVED = ('j_valid_from', 'j_valid_to')
+
+
+def _layout(case):
+    """(primary-key name, payload names in schema order, extra columns [[name, where]])"""
+    pk = case.get('pk', 'id')
+    names = case.get('names')
+    if names is None:
+        names = ['f%d' % i for i in range(len(case['fields']))]
+    return pk, list(names), [list(e) for e in case.get('extra', [])]
+
+
+def _names_ok(case):
+    """all column names of the case are distinct, usable as HDF5 link names, and as many as there are payload columns"""
+    pk, names, extra = _layout(case)
+    allc = [pk] + list(RESERVED) + names + [e[0] for e in extra]
+    return (len(names) == len(case['fields']) and len(set(allc)) == len(allc)
+            and all(isinstance(x, str) and x and '/' not in x and x != '.' for x in allc)
+            and all(e[1] in ('o', 'n', 'b', 'g') for e in extra))
+
+
+def _schema_names(case):
+    """the names the schema lists, in order: payload names always in case order (= the order of the model's field list);
+    sord moves the primary key / the j_valid_* columns; 'o' / 'n' extras and 'g' ghosts are listed, 'b' extras are not"""
+    pk, names, extra = _layout(case)
+    sord = case.get('sord', 0)
+    listed = [e[0] for e in extra if e[1] in ('o', 'n', 'g')]
+    if sord == 1:
+        out = names + [pk]
+    elif sord == 2:
+        out = ['j_valid_from', 'j_valid_to'] + names[:1] + [pk] + names[1:]
+    elif sord == 3:
+        out = ['j_valid_to'] + names + ['j_valid_from']          # the primary key is not listed at all
+    else:
+        out = [pk] + names + ['j_valid_from', 'j_valid_to']
+    return (listed + out) if sord % 2 else (out + listed)
+
+
+def _creation(case, which):
+    """the columns of the old table (which = 'o') / the snapshot ('n') in the order in which they are created"""
+    pk, names, extra = _layout(case)
+    cols = [pk, 'j_valid_from', 'j_valid_to'] + names + [e[0] for e in extra if e[1] in (which, 'b')]
+    v = case.get('ocre' if which == 'o' else 'ncre', 0)
+    if v == 1:
+        cols = cols[::-1]
+    elif v == 2:
+        cols = cols[3:] + ['j_valid_to', pk, 'j_valid_from']
+    elif v == 3:
+        cols = sorted(cols)
+    elif v == 4:
+        cols = sorted(cols, reverse=True)
+    elif v == 5:
+        cols = sorted(cols, key=lambda x: hashlib.sha256(x.encode()).hexdigest())
+    return cols
 
 
 def _create_num(s, df, nm, d, scs):
@@ -319,30 +406,41 @@ def _run_table(case):
     kd = case['kd']
     cs, scs, vft = case.get('cs'), case.get('scs'), case.get('vft', 0)
     form = case.get('form', 'df')
-    names = ['f%d' % i for i in range(len(case['fields']))]
+    pk, names, extra = _layout(case)
     dts = [f.get('d', 'int64') for f in case['fields']]
 
     def mk(prefix, keys, vf, which):
         # input tables are only read by journal_table: identical ones are shared between consecutive cases
-        key = json.dumps([prefix, kd, scs, keys, vf, [[f['k'], f.get('d'), f[which]] for f in case['fields']]])
+        cols = _creation(case, which)
+        key = json.dumps([prefix, kd, scs, keys, vf, [[f['k'], f.get('d'), f[which]] for f in case['fields']], cols])
         ent = _cache.get(key)
         if ent is not None:
             return ent
         df = ds.create_dataframe(prefix + tag)
         written = {}
-        written['id'] = _key_array(np, kd, keys)
-        _create_key(s, df, kd, scs).data.write(written['id'])
-        written['j_valid_from'] = np.array(vf, dtype=np.float64)
-        s.create_timestamp(df, 'j_valid_from', chunksize=scs).data.write(written['j_valid_from'])
-        written['j_valid_to'] = np.array([9e9] * len(keys), dtype=np.float64)
-        s.create_timestamp(df, 'j_valid_to', chunksize=scs).data.write(written['j_valid_to'])
-        for nm, f, d in zip(names, case['fields'], dts):
-            if f['k'] == 'n':
-                written[nm] = _num_array(np, d, f[which])
-                _create_num(s, df, nm, d, scs).data.write(written[nm])
+        fld = dict(zip(names, zip(case['fields'], dts)))
+        for nm in cols:         # the columns are created in the case's creation order
+            if nm == pk:
+                written[pk] = _key_array(np, kd, keys)
+                _create_key(s, df, pk, kd, scs).data.write(written[pk])
+            elif nm == 'j_valid_from':
+                written[nm] = np.array(vf, dtype=np.float64)
+                s.create_timestamp(df, nm, chunksize=scs).data.write(written[nm])
+            elif nm == 'j_valid_to':
+                written[nm] = np.array([9e9] * len(keys), dtype=np.float64)
+                s.create_timestamp(df, nm, chunksize=scs).data.write(written[nm])
+            elif nm in fld:
+                f, d = fld[nm]
+                if f['k'] == 'n':
+                    written[nm] = _num_array(np, d, f[which])
+                    _create_num(s, df, nm, d, scs).data.write(written[nm])
+                else:
+                    written[nm] = _enc(np, f[which])
+                    s.create_indexed_string(df, nm, chunksize=scs).data.write([_str(x) for x in f[which]])
             else:
-                written[nm] = _enc(np, f[which])
-                s.create_indexed_string(df, nm, chunksize=scs).data.write([_str(x) for x in f[which]])
+                # an extra column (not compared): every snapshot cell differs from every old cell
+                written[nm] = np.arange(len(keys), dtype=np.int64) + (7 if which == 'o' else 900)
+                s.create_numeric(df, nm, 'int64', chunksize=scs).data.write(written[nm])
         if len(_cache) > 6:
             _cache.pop(next(iter(_cache)))
         _cache[key] = (df, written, prefix + tag)
@@ -353,7 +451,7 @@ def _run_table(case):
         n, n_written, n_name = o, o_written, o_name
     else:
         n, n_written, n_name = mk('n', case['nkeys'], [100.0] * len(case['nkeys']), 'n')
-    schema = _Schema(['id'] + names + ['j_valid_from', 'j_valid_to'])
+    schema = _Schema(_schema_names(case))
 
     def call(rname):
         if form == 'h5':
@@ -361,13 +459,13 @@ def _run_table(case):
             h5 = ds._file
             rg = h5.create_group(rname)
             with _Sizes(cs, scs, s):
-                journal.journal_table(s, schema, h5[o_name], h5[n_name], 'id', rg)
+                journal.journal_table(s, schema, h5[o_name], h5[n_name], pk, rg)
             got = sorted(rg.keys())
             getf = lambda nm: s.get(rg[nm])
         else:
             r = ds.create_dataframe(rname)
             with _Sizes(cs, scs, s):
-                journal.journal_table(s, schema, o, n, 'id', r)
+                journal.journal_table(s, schema, o, n, pk, r)
             got = sorted(r.keys())
             getf = lambda nm: r[nm]
         if got != sorted(names):
@@ -623,6 +721,66 @@ def _table_features(case, model, ok, nk):
             if any(len(c) >= 256 for c in cells): f.append('string-cell>=256-bytes')
             if any(max(c, default=0) >= 128 for c in cells): f.append('string-non-ascii')
     f.append('fields:%d' % len(case['fields']))
+    f.extend(_name_features(case, ok, nk))
+    return f
+
+
+def _rel(a, b, tag):
+    """relations of the name a to the name b"""
+    out = []
+    if a != b and a in b:
+        out.append('substring-of-' + tag)
+        if b.startswith(a): out.append('prefix-of-' + tag)
+        if b.endswith(a): out.append('suffix-of-' + tag)
+    if a != b and b in a:
+        out.append('superstring-of-' + tag)
+    if a != b and a.lower() == b.lower():
+        out.append('case-variant-of-' + tag)
+    if a != b and a.strip() == b.strip():
+        out.append('equal-after-stripping-to-' + tag)
+    if a != b and len(a) == len(b) and sorted(a) == sorted(b):
+        out.append('anagram-of-' + tag)
+    return out
+
+
+def _name_features(case, ok, nk):
+    if not any(k in case for k in ('pk', 'names', 'ocre', 'ncre', 'sord', 'extra')):
+        return []
+    pk, names, extra = _layout(case)
+    f = ['named-columns', 'pk-name:' + (pk if len(pk) <= 16 else 'long')]
+    rel = []        # per payload column its relations
+    for nm in names:
+        r = _rel(nm, pk, 'pk') + [x for res in RESERVED for x in _rel(nm, res, 'reserved')]
+        if len(nm) == 1: r.append('single-character')
+        if any(ord(c) > 127 for c in nm): r.append('non-ascii')
+        if any(nm != o and nm in o for o in names): r.append('substring-of-another-payload-name')
+        rel.append(sorted(set(r)))
+        f.extend('name-' + x for x in rel[-1])
+    for res in RESERVED:
+        f.extend('pk-' + x for x in _rel(pk, res, 'reserved'))
+    if len(pk) == 1: f.append('pk-single-character')
+    # the column that alone carries a key's difference has a related name
+    ovf = case['ovf']
+    for j, k in enumerate(nk):
+        rows = sorted((i for i in range(len(ok)) if ok[i] == k), key=lambda i: (ovf[i], i))
+        if rows:
+            d = [i for i, x in enumerate(case['fields']) if x['o'][rows[-1]] != x['n'][j]]
+            if len(d) == 1 and rel[d[0]]:
+                f.append('diff-confined-to-column-with-related-name')
+                f.extend('diff-confined-to-name-' + x for x in rel[d[0]])
+    co, cn = _creation(case, 'o'), _creation(case, 'n')
+    sch = _schema_names(case)
+    if [x for x in co if x in names] != names: f.append('old-creation-order-differs-from-schema-order')
+    if [x for x in cn if x in names] != names: f.append('new-creation-order-differs-from-schema-order')
+    if [x for x in co if x in cn] != [x for x in cn if x in co]: f.append('old-and-new-creation-orders-differ')
+    if names != sorted(names): f.append('schema-order-not-alphabetical')
+    if co.index(pk) > min([co.index(x) for x in names] or [len(co)]): f.append('payload-created-before-pk')
+    if pk not in sch: f.append('schema-without-pk')
+    elif names and sch.index(pk) > sch.index(names[0]): f.append('schema-lists-pk-after-payload')
+    if case.get('sord'): f.append('sord:%d' % case['sord'])
+    for e in extra:
+        f.append('extra-column:' + {'o': 'only-old', 'n': 'only-new', 'b': 'both-not-in-schema', 'g': 'schema-only'}[e[1]])
+        f.extend('extra-' + x for x in _rel(e[0], pk, 'pk'))
     return f
 
 
@@ -1096,6 +1254,8 @@ def _gen_tables(tier, rng):
         if t % 10 == 0:
             case['allmodes'] = True
         yield case
+    # J. column NAMES (the model is name-agnostic; see _gen_names)
+    yield from _gen_names(tier, rng, more)
     # I. change-directed: a small integer literal that is NEW in the tree under test (harness/hot.py) is planted as
     #    number of rows of either table / of the result, number of keys, run length of versions, segment size,
     #    key width and string-cell length
@@ -1109,6 +1269,172 @@ def _gen_tables(tier, rng):
         nkeys = [rng.randint(0, 2) for _ in range(rng.randint(2, 4))]
         yield {'op': 'table', 'kd': kds[t % 3], 'okeys': okeys, 'ovf': ovf, 'nkeys': nkeys,
                'fields': _payload(okeys, ovf, nkeys, ['n', 's'], dict((k, rng.choice(['same', 'num', 'str'])) for k in nkeys))}
+
+
+# ---- J. column names ------------------------------------------------------------------------------------------------
+PK_NAMES_QUICK = ['id', 'patient_id', 'j_valid', 'k']
+PK_NAMES = PK_NAMES_QUICK + ['pk', 'j_valid_from_id', 'to', 'ID', 'a_b', 'j_valid_to_']
+
+
+def _substrings(S):
+    return [S[i:j] for i in range(len(S)) for j in range(i + 1, len(S) + 1)]
+
+
+def _dedupe(xs, pk):
+    out = []
+    for x in xs:
+        if x and x != pk and x not in RESERVED and x not in out and '/' not in x and x != '.':
+            out.append(x)
+    return out
+
+
+def _related_names(S, full):
+    """names related to the string S.  small: prefix, suffix, first / last / middle character, '_'-separated tokens,
+    superstrings on either side, doubled, case variants, reversed, same length with another last character, trailing
+    blank; full: EVERY non-empty proper substring as well"""
+    n = len(S)
+    out = [S[:1], S[-1:], S[:n // 2], S[n // 2:], S[:-1], S[1:], S[1:-1], S[n // 2:n // 2 + 1]] + S.split('_')
+    out += [S + '2', 'x' + S, S + '_x', S + S, S.upper() if S.upper() != S else S.lower(), S.capitalize(), S[::-1],
+            S[:-1] + 'x', S + ' ', ' ' + S, S + '\u00e9']
+    if full:
+        out += _substrings(S)
+    return out
+
+
+def _name_alphabet(pk, size):
+    """payload-name alphabets for the primary-key name pk: 'all' (single columns), 'mid' (pairs), 'small' (triples)"""
+    if size == 'all':
+        xs = _related_names(pk, True) + [x for r in RESERVED for x in _related_names(r, True)] + ['val', 'a', 'ab', 'abc']
+    elif size == 'mid':
+        n = len(pk)
+        xs = [pk[:1], pk[-1:], pk[:max(1, n // 2)], pk[n // 2:], pk[1:-1], pk + '2', 'x' + pk, pk + pk,
+              pk.upper() if pk.upper() != pk else pk.lower(), pk + ' ',
+              'j', 'valid', 'j_valid', 'j_valid_', 'from', 'to', '_', 'j_valid_from_x', 'xj_valid_to', 'j_valid_fro', 'val']
+    else:
+        xs = [pk[:max(1, len(pk) // 2)], pk[-1:], pk + '2', 'j', 'j_valid', 'j_valid_from_x', 'o', 'val']
+    return _dedupe(xs, pk)
+
+
+_NAME_SHAPES = [    # per key ascending: (old versions, snapshot status); 'chg' = changed in the carrier column only
+    [(2, 'chg'), (1, 'same'), (0, 'new'), (1, 'absent')],
+    [(1, 'chg'), (2, 'chg'), (1, 'same')],
+    [(0, 'new'), (1, 'chg'), (2, 'absent'), (1, 'chg')],
+    [(1, 'same'), (3, 'chg')],
+]
+
+
+def _distinct_columns(fields):
+    """_payload gives every numeric (string) column the same content: make the columns pairwise different, so that a
+    column stored under another column's name is seen"""
+    out = []
+    for i, f in enumerate(fields):
+        if i == 0:
+            out.append(f)
+        elif f['k'] == 'n':
+            out.append(dict(f, o=[v + 1000 * i for v in f['o']], n=[v + 1000 * i for v in f['n']]))
+        else:
+            out.append(dict(f, o=[c + [48 + i] for c in f['o']], n=[c + [48 + i] for c in f['n']]))
+    return out
+
+
+def _confine_to(case, carrier):
+    """every key whose snapshot record differs keeps its difference in column `carrier` only (carrier None: everywhere)"""
+    if carrier is None:
+        return case
+    ok, nk = _kz(case)
+    ovf = case['ovf']
+    fields = [dict(f, n=list(f['n'])) for f in case['fields']]
+    for j, k in enumerate(nk):
+        rows = sorted((i for i in range(len(ok)) if ok[i] == k), key=lambda i: (ovf[i], i))
+        if rows:
+            for i, f in enumerate(fields):
+                if i != carrier:
+                    f['n'][j] = f['o'][rows[-1]]
+    case['fields'] = fields
+    return case
+
+
+def _named_case(rng, c, pk, names, carrier, kinds=None, extra=None):
+    """a 4-7 row table whose columns are called pk / names; c = running counter rotating every other dimension"""
+    nf = len(names)
+    if kinds is None:
+        kinds = [['n', 's', 'n'], ['s', 'n', 's'], ['n', 'n', 's'], ['s', 's', 'n']][c % 4][:nf] if nf <= 3 else \
+                [rng.choice('ns') for _ in range(nf)]
+    chg = 'both' if len(set(kinds)) == 2 else ('num' if 'n' in kinds else 'str')
+    shape = [(v, chg if st == 'chg' else st) for v, st in _NAME_SHAPES[c % len(_NAME_SHAPES)]]
+    case = _shape_table(shape, rng, kinds, kd=['int32', 'int64', 'S1'][c % 3])
+    case['fields'] = _distinct_columns(case['fields'])
+    _confine_to(case, carrier)
+    _dress(case, c)
+    case['pk'] = pk
+    case['names'] = list(names)
+    oc, nc, so = [(0, 0, 0), (1, 1, 0), (0, 1, 1), (2, 0, 2), (3, 4, 0), (5, 2, 3), (4, 4, 1), (1, 5, 2), (0, 3, 0), (5, 5, 0)][c % 10]
+    if oc: case['ocre'] = oc
+    if nc: case['ncre'] = nc
+    if so: case['sord'] = so
+    if extra:
+        case['extra'] = extra
+    assert _names_ok(case), case
+    return case
+
+
+def _gen_names(tier, rng, more):
+    """J. dependence on column NAMES.  For several primary-key names: (1) every single payload column whose name is a
+    non-empty proper substring / a superstring / a case variant / ... of the primary-key name or of j_valid_from /
+    j_valid_to; (2) every pair (thorough: every ordered pair) of a 20-name alphabet with each column in turn carrying the
+    only difference; (3) every triple of an 8-name alphabet and chains of names that are substrings of one another;
+    (4) extra columns (only old / only new / both but not in the schema / schema only) with related names.  The order
+    in which the columns were created in either table and the place of the key / j_valid_* in the schema rotate."""
+    big = tier == 'thorough'
+    pks = PK_NAMES if (big or more > 1) else PK_NAMES_QUICK
+    c = 0
+    for pk in pks:
+        # (1) single payload column
+        for nm in _name_alphabet(pk, 'all'):
+            c += 1
+            yield _named_case(rng, c, pk, [nm], 0)
+        # (2) pairs
+        alpha = _name_alphabet(pk, 'mid')
+        pairs = itertools.permutations(alpha, 2) if big else itertools.combinations(alpha, 2)
+        for a, b in pairs:
+            c += 1
+            ab = [a, b] if (big or c % 2) else [b, a]
+            for carrier in (0, 1):
+                yield _named_case(rng, c + carrier, pk, ab, carrier)
+        # (3) triples, chains
+        small = _name_alphabet(pk, 'small')
+        triples = list(itertools.permutations(small, 3) if big else itertools.combinations(small, 3))
+        chains = [['a', 'ab', 'abc'], ['abc', 'ab', 'a'], ['b', 'abc', 'bc'], [pk[:1], pk + 'x', pk[-1:] + '_'],
+                  ['j', 'j_', 'j_v'], ['_from', 'j_valid_from_', 'valid_from'], [pk + pk, pk + '_', '_' + pk]]
+        for tr in triples + chains:
+            tr = _dedupe(tr, pk)
+            if len(tr) < 3:
+                continue
+            c += 1
+            if not big:
+                tr = [tr, tr[::-1], tr[1:] + tr[:1]][c % 3]
+            yield _named_case(rng, c, pk, tr, c % 3)
+            if c % 4 == 0:
+                yield _named_case(rng, c + 1, pk, tr, None)
+        # (4) extra columns with related names, next to 1-2 payload columns with related names
+        rel = _name_alphabet(pk, 'mid')
+        for nm in rel:
+            for where in 'onbg':
+                c += 1
+                others = [x for x in rel if x != nm]
+                pay = [others[c % len(others)]] if c % 2 else [others[c % len(others)], others[(c + 5) % len(others)]]
+                pay = _dedupe(pay, pk)
+                ex = [[nm, where]]
+                if c % 3 == 0:
+                    ex.append(['extra2', 'onbg'[c % 4]])
+                yield _named_case(rng, c, pk, pay, c % len(pay), extra=ex)
+    # (5) more payload columns: 4-6 names drawn from the alphabets, seeded
+    for t in range((600 if big else 60) * more):
+        pk = rng.choice(pks)
+        alpha = _name_alphabet(pk, 'all')
+        names = rng.sample(alpha, rng.randint(4, 6))
+        c += 1
+        yield _named_case(rng, c, pk, names, rng.randrange(len(names)))
 
 
 HOT_ROWS_MAX = 520      # the extracted model (insertion sort over lists of inductive integers) is cubic: ~1 s at 500 rows
@@ -1179,9 +1505,18 @@ def shrink(case):
         return
     no, nn = len(case['okeys']), len(case['nkeys'])
     # configuration dimensions first: a failure that does not need them is reported without them
-    for key in ('twice', 'form', 'scs', 'vft', 'allmodes', 'cs'):
+    for key in ('twice', 'form', 'scs', 'vft', 'allmodes', 'cs', 'extra', 'ocre', 'ncre', 'sord', 'names', 'pk'):
         if key in case and not (key == 'form' and case[key] == 'alias'):
-            c = dict(case); del c[key]; yield c
+            c = dict(case); del c[key]
+            if case['op'] != 'table' or _names_ok(c): yield c
+    if 'names' in case:
+        for i, nm in enumerate(case['names']):
+            if nm != 'f%d' % i:
+                c = dict(case); c['names'] = case['names'][:i] + ['f%d' % i] + case['names'][i + 1:]
+                if _names_ok(c): yield c
+    if case.get('extra') and len(case['extra']) > 1:
+        for i in range(len(case['extra'])):
+            c = dict(case); c['extra'] = case['extra'][:i] + case['extra'][i + 1:]; yield c
     if case.get('cs', 1) > 1:
         c = dict(case); c['cs'] = case['cs'] - 1; yield c
     for i in range(no):
@@ -1197,4 +1532,6 @@ def shrink(case):
         yield c
     if len(case['fields']) > 1:
         for i in range(len(case['fields'])):
-            c = dict(case); c['fields'] = case['fields'][:i] + case['fields'][i + 1:]; yield c
+            c = dict(case); c['fields'] = case['fields'][:i] + case['fields'][i + 1:]
+            if 'names' in case: c['names'] = case['names'][:i] + case['names'][i + 1:]
+            yield c
